@@ -97,7 +97,7 @@ IDN_ACE = [(t, t.lower().encode("ascii").decode("idna")) for t in
 IDN_UNI = ["bücher.de", "例え.テスト", "faß.de", "BÜCHER.de", "℀.com", "a。b"]
 SCHEMES = [("http", 8), ("https", 6), ("HTTP", 1), ("hTTps", 1)]
 ODD_SCHEMES = ["ftp", "ws", "", "h+t.p-1", "1http", "http ", "ht tp", "tel", "mailto"]
-USERINFO = ["u@", "u:p@", "a@b@", "@", ":@", "[@"]
+USERINFO = ["u@", "u:p@", "a@b@", "@", ":@", "[@", "[::1]@", "[::1]@", "[v1.a]@"]
 PORTS = ["", "", "", ":80", ":443", ":8080", ":1", ":65535", ":080", ":00443", ":8443"]
 ODD_PORTS = [":", ":0", ":00", ":65536", ":99999999999", ":-1", ":8a", ": 80", ":80 ", ":+80", ":8_0", "::80", ":١"]
 PATHS = ["", "/", "/p", "/a/b", "/a/b;c", "/a;b/c;d", "//x", "/%7e%2F", "/a b", "/a/", "/a;b;c", "/;", "/a;;b", "/*", "/a:b@c", "/[x]", "/a%"]
@@ -140,7 +140,8 @@ def g_host(rng):
         t = rng.choice(IDN_UNI)
         return t, t, t == t.lower() and t in IDN_UNI[:2], True
     if r < 0.88:
-        return rng.choice(["[v1.a]", "[vF.x:y]", "[v.a]", "[v1.]", "[1.2.3.4]", "[::1", "::1]", "[[::1]]", "[::1]x", "[]"]), None, False, False
+        return rng.choice(["[v1.a]", "[vF.x:y]", "[v.a]", "[v1.]", "[1.2.3.4]", "[::1", "::1]", "[[::1]]", "[::1]x", "[]", "[::1.]", "[zz]",
+                           "[FE80::1%25En0.]", "[::ffff:1.2.3.4.]"]), None, False, False
     return rng.choice(BAD_NAMES), None, False, False
 
 
@@ -501,7 +502,7 @@ def _dest_check(v, where, scheme, host, port, pa):
     want_port = None if DEFAULT.get(scheme) == port else port
     ok = pa[0] == "ok" and b2s(unhx(pa[1])).lower() == host.lower() and pa[2] == want_port
     if not ok:
-        key = "ipv6-unbracketed" if ":" in host and (pa[0] == "err" or ":" not in b2s(unhx(pa[1]))) else "host-header-destination"
+        key = "ipv6-unbracketed" if ":" in host and pa[0] == "err" else "host-header-destination"
         v.append({"key": key, "what": f"{where}: host header does not denote destination ({host!r}, {port}): parse_authority -> {pa}"})
 
 
@@ -546,6 +547,7 @@ def oracle(case, obs):
             if scheme in DEFAULT and not connect:
                 if not (ob["re_st"] == 0 and ob["re_same"] and ob["re_url"] == ob["url"]):
                     key = ("idn-readback-not-reassignable" if any(ord(c) > 127 for c in host)
+                           else "ipv6-trailing-dot-host" if ":" in host and host.endswith(".") and ob["re_st"] == 1 and "[" in b2s(unhx(ob["url"]))
                            else "ipv6-unbracketed" if ":" in host else "url-reassign")
                     v.append({"key": key, "what": f"{where}: url reads back {b2s(unhx(ob['url']))!r}; assigning it again -> status {ob['re_st']}, "
                                                   f"state unchanged={ob['re_same']}"})
